@@ -13,6 +13,7 @@ mod c11;
 mod c11walk;
 mod c12;
 mod c13;
+mod c13json;
 mod c14;
 mod c15;
 mod c16;
@@ -124,6 +125,13 @@ fn main() {
         "C13" => {
             report = Report::new("C13", "generated histories (as C02: option combinations, interrupted and resumed backups, deletes, gc); after EVERY mutating step the real archive is decoded by an independent reader and checked clause by clause against doc/format.md, and the Lean predicate Conforms is evaluated on it; one case per (history, step); all non-trivial");
             c13::run(&tier, seed, &mut report);
+            // the JSON layer: real hunk bytes and malformed variants against Json.lean
+            c13json::run(&tier, seed, &mut report);
+        }
+        "C13J" => {
+            // the JSON-layer step of C13 on its own (for replay and development)
+            report = Report::new("C13J", "index hunks written by the real backup on generated trees with odd names, targets, owners and times, and generated entries through the real serialiser, each decoded and re-rendered by the byte-level model; plus hand-made and generated variant / malformed JSON sent to the real deserialiser and to the model; non-trivial = more than two bytes; distinct by input bytes");
+            c13json::run(&tier, seed, &mut report);
         }
         "C14" => {
             report = Report::new("C14", "generated histories containing backups of unchanged trees with other options, interrupted backups followed by a resume, deletes/gc; block writes are tracked over the whole history; non-trivial = more than three steps; distinct by seed");
